@@ -31,10 +31,10 @@ fn part_eq(a: &CompositeKeyPart, b: &CompositeKeyPart) -> bool {
 
 //@ props: C30
 //@ tier: quick
-//@ funcs: query::aggs::CompositeKey::cmp, query::aggs::CompositeKeyPart::cmp
+//@ funcs: query::aggs::CompositeKey::cmp, CompositeKey::partial_cmp (operators), query::aggs::CompositeKeyPart::cmp
 //@ symbolic: source kinds (terms / histogram) of 2 key positions; three keys with any 1-byte ASCII term or any f64 bit pattern per part
 //@ bounds: 3 keys x 2 parts, 1-byte strings
-//@ oracle: cmp is a strict total order consistent with equality (Equal iff identical parts; antisymmetric; transitive) - the condition under which "keep the buckets whose key is greater than after" neither drops nor repeats a bucket; histogram parts are ordered numerically
+//@ oracle: cmp is a strict total order consistent with equality (Equal iff identical parts; antisymmetric; transitive), the comparison operators / partial_cmp agree with it - the condition under which "keep the buckets whose key is greater than after" neither drops nor repeats a bucket; histogram parts are ordered numerically
 #[kani::proof]
 #[kani::unwind(4)]
 fn c30_composite_key_total_order() {
@@ -47,6 +47,10 @@ fn c30_composite_key_total_order() {
   let bc = b.cmp(&c);
   let ac = a.cmp(&c);
   assert!(b.cmp(&a) == ab.reverse(), "C30: composite key order is not antisymmetric");
+  // `finalize_composite` keeps the buckets with `key > after`: the comparison operators
+  // must agree with the order the buckets are sorted by
+  assert!(a.partial_cmp(&b) == Some(ab), "C30: PartialOrd of composite keys disagrees with Ord (the after filter and the sort would use different orders)");
+  assert!((a > b) == (ab == Ordering::Greater), "C30: `key > after` disagrees with the sort order of composite keys");
   let same = part_eq(&a.parts[0], &b.parts[0]) && part_eq(&a.parts[1], &b.parts[1]);
   assert!((ab == Ordering::Equal) == same, "C30: composite keys compare Equal without being identical (or the reverse)");
   if ab != Ordering::Greater && bc != Ordering::Greater {
